@@ -426,7 +426,6 @@ class DownloadNode:
                     eventually(self._deliver, d, c, result)
             else:
                 (offset, segment, decodetime) = result
-                self._active_segment = None
                 for (d,c,seg_ev) in self._extract_requests(segnum):
                     # when we have two requests for the same segment, the
                     # second one will not be "activated" before the data is
@@ -439,6 +438,7 @@ class DownloadNode:
                     seg_ev.deliver(when, offset, len(segment), decodetime)
                     eventually(self._deliver, d, c, result)
             self._download_status.add_misc_event("process_block", start, now())
+            self._active_segment = None
             self._start_new_segment()
         d.addBoth(_deliver)
         d.addErrback(log.err, "unhandled error during process_blocks",
